@@ -313,7 +313,10 @@ fn run() {
             updrun::run(&mut report, replay.as_deref());
             cmd::run(&mut report);
         }
-        "C07" => imports::run(&mut report),
+        "C07" => {
+            imports::run(&mut report);
+            c15::run_lock_sites(&mut report);
+        }
         "C15" => c15::run(&mut report),
         "C16" => c16::run(&mut report),
         "C18" => c18::run(&mut report),
